@@ -528,7 +528,32 @@ where
             if (*kptr).0 != 0 {
                 self.count -= 1;
                 *kptr = Handle(0);
-                Some(std::ptr::read(self.values.as_ptr().add(ind)))
+                let result = std::ptr::read(self.values.as_ptr().add(ind));
+                // backward shift deletion: entries that probed past the now empty slot must be
+                // moved back, otherwise lookups stop at the hole and miss them
+                let mask = self.capacity - 1;
+                let mut hole = ind;
+                let mut j = (ind + 1) & mask;
+                loop {
+                    let k = *self.handles.as_ptr().add(j);
+                    if k.0 == 0 {
+                        break;
+                    }
+                    let home = (k.0.wrapping_mul(2654435769) as usize) & mask;
+                    // `k` may stay only if its home slot lies cyclically in (hole, j]
+                    if (j.wrapping_sub(home) & mask) >= (j.wrapping_sub(hole) & mask) {
+                        *self.handles.as_ptr().add(hole) = k;
+                        std::ptr::copy_nonoverlapping(
+                            self.values.as_ptr().add(j),
+                            self.values.as_ptr().add(hole),
+                            1,
+                        );
+                        *self.handles.as_ptr().add(j) = Handle(0);
+                        hole = j;
+                    }
+                    j = (j + 1) & mask;
+                }
+                Some(result)
             } else {
                 None
             }
